@@ -371,7 +371,7 @@ class Nfa2Dfa:
             eps, Sig = 'ε', ['a', '_']
         N = gen.random_nfa(rng, 4, Sig, eps, names)
         N['dd'] = True
-        if rng.random() < 0.12:     # 11-12 numbered states, q1 accepting and q10 not (one name a substring of the other)
+        if rng.random() < 0.2:      # 11-12 numbered states, q1 accepting and q10 not (one name a substring of the other)
             return {'N': gen.numbered_nfa(rng)}
         if len(N['Q']) >= 3 and rng.random() < 0.3:     # an epsilon chain of length two leaving the initial state
             a, b, c = N['Q'][:3]
@@ -399,6 +399,13 @@ class Nfa2Dfa:
             for _ in range(3):
                 out.append(DA.print_dfa(enc.build_dfa(mutate_dfa_spec(rng, enc.dfa_to_spec(A)), check=False)))
             qs = sorted(A.Q)
+            fin = set(inst['N']['F'])
+            # mark as accepting EVERY subset state that contains no accepting state but a state whose NAME contains an accepting state's name
+            odd = [q for q in qs if len(q) > 2 and not (set(q[1:-1].split(',')) & fin) and any(f in m for f in fin for m in q[1:-1].split(','))]
+            if odd:
+                s2 = enc.dfa_to_spec(A)
+                s2['F'] = sorted(set(s2['F']) | set(odd))
+                out.append(DA.print_dfa(enc.build_dfa(s2, check=False)))
             out.append(own + '\n%s %s %s' % (rng.choice(qs), rng.choice(qs), inst['N']['eps']))      # extra epsilon edge
             for e in ('_', 'ε'):                                                                   # ... in either spelling
                 if e != inst['N']['eps'] and e not in inst['N']['Sigma']:
